@@ -3,9 +3,17 @@
 Every binding assigns a unique integer; every use is observe(site, name). The program is executed, which tells for each
 use which binding supplied the value. Contract: every definition goto returns for the use is a binding of the same
 identifier in the SAME scope as the observed binding (or its global/nonlocal declaration); in straight-line programs
-it is exactly the observed assignment."""
+it is exactly the observed assignment.
+
+Flow dimension (FLOW section): the binding and the use sit in (different / the same / nested) branches of if chains, try
+statements, loops and with blocks of a class body or a function; selectors injected at run time decide which branch
+runs, so the observation tells whether the binding in the branch ran (value from the host scope) or not (value from the
+enclosing scope)."""
 import ast
+import collections
+import itertools
 import os
+import random
 import traceback
 
 # name = <unique int>   binds ; observe(<site>, name) uses.  '#S' marks straight-line single-scope programs.
@@ -87,6 +95,349 @@ def generated_programs(tier):
     return out
 
 
+# ---------------------------------------------------------------------------------------------------------------------
+# FLOW section: control flow between the binding and the use
+# ---------------------------------------------------------------------------------------------------------------------
+class _Sk:
+    """skeleton builder: blocks are lists of nodes; nodes are ('slot', id) or flow statements"""
+    def __init__(self):
+        self.n = 0
+
+    def slot(self):
+        self.n += 1
+        return ('slot', self.n)
+
+    def if_(self, branches, has_else):
+        self.n += 1
+        return ('if', self.n, branches, has_else)
+
+    def try_(self, body, handlers, orelse, final):
+        self.n += 1
+        return ('try', self.n, body, handlers, orelse, final)
+
+    def loop(self, kind, body, orelse):
+        self.n += 1
+        return (kind, self.n, body, orelse)
+
+
+def _branches(node):
+    """[(key, block)] of a flow statement"""
+    kind = node[0]
+    if kind == 'if':
+        return list(enumerate(node[2]))
+    if kind == 'try':
+        out = [('try', node[2])]
+        out += [(('h', k), b) for k, b in enumerate(node[3])]
+        if node[4] is not None:
+            out.append(('else', node[4]))
+        if node[5] is not None:
+            out.append(('finally', node[5]))
+        return out
+    out = [('body', node[2])]
+    if node[3] is not None:
+        out.append(('else', node[3]))
+    return out
+
+
+def _slot_paths(block, prefix, out):
+    for node in block:
+        if node[0] == 'slot':
+            out[node[1]] = list(prefix)
+        else:
+            for key, blk in _branches(node):
+                _slot_paths(blk, prefix + [(node, key)], out)
+    return out
+
+
+def _options(node, key):
+    """selector values of a flow statement under which the branch `key` is executed"""
+    kind = node[0]
+    if kind == 'if':
+        return [key]
+    if kind == 'try':
+        nh = len(node[3])
+        if key in ('try', 'finally'):
+            return list(range(nh + 1))
+        if key == 'else':
+            return [0]
+        return [key[1] + 1]
+    return [0]
+
+
+def _all_options(node):
+    kind = node[0]
+    if kind == 'if':
+        n = len(node[2])
+        return list(range(n if node[3] else n + 1))     # n = no branch runs (chain without else)
+    if kind == 'try':
+        return list(range(len(node[3]) + 1))
+    return [0]
+
+
+def _render(block, ind, items, assign, static, lines):
+    """assign: flow id -> selector value; flow statements that hold no item are left out"""
+    start = len(lines)
+    pad = '    ' * ind
+    for node in block:
+        if node[0] == 'slot':
+            for text in items.get(node[1], ()):
+                lines.append(pad + text)
+            continue
+        if node[1] not in assign:
+            continue
+        kind, fid = node[0], node[1]
+        if kind == 'if':
+            n = len(node[2])
+            for i, blk in enumerate(node[2]):
+                if i == n - 1 and node[3]:
+                    lines.append(pad + 'else:')
+                else:
+                    cond = ('1' if assign[fid] == i else '0') if static else 's%d == %d' % (fid, i)
+                    lines.append(pad + ('if ' if i == 0 else 'elif ') + cond + ':')
+                _render(blk, ind + 1, items, assign, static, lines)
+        elif kind == 'try':
+            lines.append(pad + 'try:')
+            _render(node[2], ind + 1, items, assign, static, lines)
+            lines.insert(len(lines), pad + '    boom(%d)' % fid)
+            for k, blk in enumerate(node[3]):
+                lines.append(pad + 'except E%d:' % (k + 1))
+                _render(blk, ind + 1, items, assign, static, lines)
+            if node[4] is not None:
+                lines.append(pad + 'else:')
+                _render(node[4], ind + 1, items, assign, static, lines)
+            if node[5] is not None:
+                lines.append(pad + 'finally:')
+                _render(node[5], ind + 1, items, assign, static, lines)
+        else:
+            head = {'for': 'for _i in (0,):', 'while': 'while once(%d):' % fid, 'with': 'with cm():'}[kind]
+            lines.append(pad + head)
+            _render(node[2], ind + 1, items, assign, static, lines)
+            if node[3] is not None:
+                lines.append(pad + 'else:')
+                _render(node[3], ind + 1, items, assign, static, lines)
+    if len(lines) == start or lines[-1].rstrip().endswith(':'):
+        lines.append(pad + 'pass')
+
+
+def _flow_skeletons():
+    out = []
+    # one if chain, 2..5 branches, with and without else
+    for n in (2, 3, 4, 5):
+        for has_else in (True, False):
+            sk = _Sk()
+            out.append(('if%d%s' % (n, 'e' if has_else else ''),
+                        [sk.slot(), sk.if_([[sk.slot()] for _ in range(n)], has_else), sk.slot()]))
+    # an if chain whose middle branches hold another chain
+    sk = _Sk()
+    def inner(sk, n, has_else):
+        return [sk.slot(), sk.if_([[sk.slot()] for _ in range(n)], has_else), sk.slot()]
+    out.append(('if4e/if4e', [sk.slot(), sk.if_([[sk.slot()], inner(sk, 4, True), inner(sk, 4, True), [sk.slot()]], True),
+                              sk.slot()]))
+    sk = _Sk()
+    out.append(('if3/if3', [sk.slot(), sk.if_([inner(sk, 3, False), inner(sk, 3, True), [sk.slot()]], False), sk.slot()]))
+    # try statements
+    for nh in (1, 2):
+        for has_else in (False, True):
+            for has_fin in (False, True):
+                sk = _Sk()
+                out.append(('try%d%s%s' % (nh, 'e' if has_else else '', 'f' if has_fin else ''),
+                            [sk.slot(), sk.try_([sk.slot()], [[sk.slot()] for _ in range(nh)],
+                                                [sk.slot()] if has_else else None,
+                                                [sk.slot()] if has_fin else None), sk.slot()]))
+    # mixed nestings
+    sk = _Sk()
+    out.append(('try/if', [sk.slot(), sk.try_(inner(sk, 3, True), [inner(sk, 4, True), [sk.slot()]], inner(sk, 3, False),
+                                              [sk.slot()]), sk.slot()]))
+    sk = _Sk()
+    def tr(sk):
+        return [sk.try_([sk.slot()], [[sk.slot()], [sk.slot()]], [sk.slot()], [sk.slot()])]
+    out.append(('if/try', [sk.slot(), sk.if_([[sk.slot()], tr(sk), tr(sk), [sk.slot()]], True), sk.slot()]))
+    # loops and with: always executed once
+    for kind in ('for', 'while', 'with'):
+        for has_else in ((False, True) if kind != 'with' else (False,)):
+            sk = _Sk()
+            out.append((kind + ('e' if has_else else ''),
+                        [sk.slot(), sk.loop(kind, inner(sk, 3, True), [sk.slot()] if has_else else None), sk.slot()]))
+    return out
+
+
+def _relation(top, sb, su):
+    """how the binding's place relates to the use's place:
+    'sibling-if'   different branches of one if chain
+    'else-except'  use in the else clause, binding in an except clause of one try statement; + '-last' if the else
+                   clause is the last clause of the statement
+    'sibling-try'  other pairs of clauses of one try statement
+    'sibling-loop' loop body / loop else
+    'inner'        the binding sits in a flow statement that does not hold the use (conditional w.r.t. the use)
+    'same'         same block as the use or an enclosing block of it"""
+    paths = _slot_paths(top, [], {})
+    pb, pu = paths[sb], paths[su]
+    i = 0
+    while i < len(pb) and i < len(pu) and pb[i][0] is pu[i][0] and pb[i][1] == pu[i][1]:
+        i += 1
+    if i < len(pb) and i < len(pu) and pb[i][0] is pu[i][0]:
+        node = pb[i][0]
+        if node[0] == 'if':
+            return 'sibling-if'
+        if node[0] == 'try':
+            if pu[i][1] == 'else' and pb[i][1][0] == 'h':
+                return 'else-except' + ('-last' if node[5] is None else '')
+            return 'sibling-try'
+        return 'sibling-loop'
+    if i < len(pb):
+        return 'inner'
+    return 'same'
+
+
+def _pure_if(top):
+    def walk(block):
+        for node in block:
+            if node[0] == 'slot':
+                continue
+            if node[0] != 'if':
+                return False
+            if not all(walk(b) for _, b in _branches(node)):
+                return False
+        return True
+    return walk(top)
+
+
+_FLOW_HOSTS = ('C', 'CC', 'FC', 'F')
+
+
+def _flow_cases():
+    """(label, skeleton, binding slot, use slot, order inside a shared slot, {flow id: selector}) for every pair of
+    slots of every skeleton and every choice of selectors under which the use is executed: flow statements on the
+    use's path run the use's branch (a try statement: every outcome that runs it), flow statements that hold only
+    the binding run every possibility (binding executed / not executed)"""
+    cases = []
+    for label, top in _flow_skeletons():
+        paths = _slot_paths(top, [], {})
+        slots = sorted(paths)
+        for sb in slots:
+            for su in slots:
+                if not paths[sb] and not paths[su]:
+                    continue            # both outside the flow statement: no flow involved
+                for order in (('bu', 'ub') if sb == su else ('bu',)):
+                    on_use_path = set(id(n) for n, _ in paths[su])
+                    nodes = [n for n, _ in paths[su]] + [n for n, _ in paths[sb] if id(n) not in on_use_path]
+                    choices = [_options(n, k) for n, k in paths[su]] + \
+                              [_all_options(n) for n, _ in paths[sb] if id(n) not in on_use_path]
+                    for combo in itertools.product(*choices):
+                        cases.append((label, top, sb, su, order, dict((n[1], v) for n, v in zip(nodes, combo))))
+    return cases
+
+
+def _flow_build(case, host, static, pre_bound, fresh):
+    """-> (code, value of the binding under test, values bound in the host scope).  Hosts: C class body at module level (enclosing = module); CC class
+    body in a class body (the outer class binds x too, Python skips it); FC class body in a function; F function body
+    (an unexecuted binding makes the use an UnboundLocalError: not observed)."""
+    label, top, sb, su, order, assign = case
+    bval = fresh()
+    b = 'x = %d' % bval
+    u = 'observe(1, x)'
+    items = {}
+    if sb == su:
+        items[sb] = [b, u] if order == 'bu' else [u, b]
+    else:
+        items[sb] = [b]
+        items[su] = [u]
+    host_values = [bval]
+    if pre_bound:
+        first_slot = top[0][1]
+        host_values.append(fresh())
+        items[first_slot] = ['x = %d' % host_values[1]] + items.get(first_slot, [])
+    if host == 'C':
+        lines, ind = ['x = %d' % fresh(), 'class K:'], 1
+    elif host == 'CC':
+        lines, ind = ['x = %d' % fresh(), 'class A:', '    x = %d' % fresh(), '    class K:'], 2
+    elif host == 'FC':
+        # FINDING (unchanged jedi): a class body inside a function that assigns x somewhere reads x with LOAD_NAME,
+        # i.e. class namespace -> globals, skipping the function's x; jedi's goto returns the function's x.  The FC
+        # host therefore has no module level x: whenever the class body's binding did not run the use is a NameError
+        # and nothing is observed.
+        lines, ind = ['def f():', '    x = %d' % fresh(), '    class K:'], 2
+    else:
+        lines, ind = ['x = %d' % fresh(), 'def f():'], 1
+    _render(top, ind, items, assign, static, lines)
+    if host in ('FC', 'F'):
+        lines.append('f()')
+    return '\n'.join(lines) + '\n', bval, host_values
+
+
+def flow_programs(tier, seed):
+    """-> list of (code, selectors, binding value, host scope values, relation, static, pure_if)"""
+    rnd = random.Random(seed * 7919 + 17)
+    counter = [50000]
+
+    def fresh():
+        counter[0] += 1
+        return counter[0]
+    cases = _flow_cases()
+    single = [c for c in cases if '/' not in c[0]]
+    nested = [c for c in cases if '/' in c[0]]
+    chosen = []
+    # every pair of places of every single flow statement in a class body, conditions decided at run time
+    for c in single:
+        chosen.append((c, 'C', False, False))
+        if c[0].startswith('if'):
+            chosen.append((c, 'C', True, False))        # the same with conditions jedi can decide statically
+    variants = [(h, st, pre) for h in _FLOW_HOSTS for st in (False, True) for pre in (False, True)]
+    # other hosts / conditions that are literal 0 and 1 / x bound before the statement too: a sample per case
+    if tier == 'quick':
+        for c in rnd.sample(single, len(single) // 2):
+            chosen.append((c,) + rnd.choice(variants[1:]))
+        for c in rnd.sample(nested, 700):
+            chosen.append((c,) + (('C', False, False) if rnd.random() < 0.5 else rnd.choice(variants)))
+    else:
+        for c in single:
+            for v in rnd.sample(variants[1:], 3):
+                chosen.append((c,) + v)
+        for c in nested:
+            chosen.append((c, 'C', False, False))
+            chosen.append((c,) + rnd.choice(variants[1:]))
+    out = []
+    for c, host, static, pre in chosen:
+        code, bval, host_values = _flow_build(c, host, static, pre, fresh)
+        out.append((code, c[5], bval, host_values, _relation(c[1], c[2], c[3]), static, _pure_if(c[1])))
+    return out
+
+
+class _E1(Exception):
+    pass
+
+
+class _E2(Exception):
+    pass
+
+
+class _Cm:
+    def __enter__(self):
+        return self
+
+    def __exit__(self, *a):
+        return False
+
+
+def _flow_namespace(assign):
+    calls = collections.Counter()
+
+    def boom(k):
+        m = assign.get(k, 0)
+        if m == 1:
+            raise _E1()
+        if m == 2:
+            raise _E2()
+
+    def once(k):
+        calls[k] += 1
+        return calls[k] == 1
+    ns = {'boom': boom, 'once': once, 'cm': _Cm, 'E1': _E1, 'E2': _E2}
+    for k, v in assign.items():
+        ns['s%d' % k] = v
+    return ns
+
+
 def analyse(code):
     tree = ast.parse(code)
     parents = {}
@@ -119,102 +470,149 @@ def analyse(code):
     return tree, parents, scope_of, effective_scope
 
 
+def _check_program(jedi, code, extra_ns, skip, violations):
+    """executes the program, asks goto for every executed use and compares; -> number of evaluations.
+    skip(value, use node, const_pos) -> True leaves an observation out (documented exclusions only)"""
+    evaluations = 0
+    straight = code.startswith('#S')
+    tree, parents, scope_of, effective_scope = analyse(code)
+    seen = []
+    ns = {'observe': lambda site, v: seen.append((site, v))}
+    ns.update(extra_ns)
+    try:
+        exec(compile(code, '<prog>', 'exec'), ns)
+    except NameError:
+        pass        # a use Python itself cannot resolve: the uses executed before it still count
+    except Exception:
+        violations.append({'label': 'generated program does not run', 'input': repr(code), 'observed': traceback.format_exc(limit=2)})
+        return 0
+    # value -> binding node (an int constant on the binding line identifies it)
+    const_pos = {}
+    for n in ast.walk(tree):
+        if isinstance(n, ast.Constant) and isinstance(n.value, int) and n.value > 100:
+            const_pos[n.value] = n
+    # global/nonlocal declaration lines per identifier
+    decl_lines = {}
+    for n in ast.walk(tree):
+        if isinstance(n, (ast.Global, ast.Nonlocal)):
+            for nm in n.names:
+                decl_lines.setdefault(nm, set()).add(n.lineno)
+    # uses: observe(site, name)
+    uses = {}
+    for n in ast.walk(tree):
+        if isinstance(n, ast.Call) and isinstance(n.func, ast.Name) and n.func.id == 'observe':
+            uses[n.args[0].value] = n.args[1]
+    s = jedi.Script(code)
+    for site, value in seen:
+        use = uses[site]
+        if value not in const_pos:
+            continue
+        if use.id == 'p':
+            # observed through a parameter whose default is a bare name: the use is that default expression,
+            # evaluated when the def statement ran
+            fn = scope_of(use)
+            if isinstance(fn, ast.FunctionDef) and fn.args.defaults and isinstance(fn.args.defaults[0], ast.Name):
+                use = fn.args.defaults[0]
+            else:
+                continue
+        if skip is not None and skip(value, use, const_pos):
+            continue
+        bind_const = const_pos[value]
+        evaluations += 1
+        try:
+            defs = s.goto(use.lineno, use.col_offset)
+        except RecursionError:
+            continue
+        except Exception:
+            violations.append({'label': 'goto raised', 'input': repr((code, site)), 'observed': traceback.format_exc(limit=3)})
+            continue
+        if not defs:
+            violations.append({'label': 'goto finds no definition for an executed use', 'input': repr((code, site)),
+                               'observed': 'value %r came from line %d' % (value, bind_const.lineno)})
+            continue
+        for d in defs:
+            if d.name != use.id:
+                violations.append({'label': 'goto lands on a different identifier', 'input': repr((code, site)),
+                                   'observed': repr((d.name, d.line, d.column))})
+                continue
+            if d.line in decl_lines.get(use.id, ()):
+                continue
+            # scope of the returned definition
+            dnode = None
+            for n in ast.walk(tree):
+                if isinstance(n, (ast.Name, ast.arg)) and n.lineno == d.line and n.col_offset == d.column:
+                    dnode = n
+            if dnode is None:
+                continue
+            dscope = effective_scope(dnode) if isinstance(dnode, ast.Name) else scope_of(dnode)
+            # a parameter belongs to the function whose header holds it
+            if isinstance(dnode, ast.arg):
+                dscope = parents[parents[dnode]] if isinstance(parents[dnode], ast.arguments) else dscope
+            # the binding `for x in (802,)` / call argument: the constant sits in the enclosing scope of the
+            # binder; compare with the scope that holds the binding NAME instead
+            bname_scope = None
+            for n in ast.walk(tree):
+                if isinstance(n, ast.Name) and isinstance(n.ctx, ast.Store) and n.id == use.id and n.lineno == bind_const.lineno:
+                    bname_scope = effective_scope(n)
+            if bname_scope is None:
+                # value passed as argument: the binding is the parameter of the called function
+                continue
+            if dscope is not bname_scope:
+                violations.append({'label': 'goto returns a binding from a scope Python did not take the value from',
+                                   'input': repr((code, site)),
+                                   'observed': 'definition at line %d, value came from line %d' % (d.line, bind_const.lineno)})
+        if straight:
+            lines = sorted({d.line for d in defs})
+            if lines != [bind_const.lineno]:
+                violations.append({'label': 'straight-line code: goto is not exactly the observed assignment',
+                                   'input': repr((code, site)), 'observed': 'got lines %r want %d' % (lines, bind_const.lineno)})
+    return evaluations
+
+
+def _flow_skip(bval, host_values, relation, static, pure_if, excluded):
+    """The observations of the flow dimension that are left out.
+
+    FINDING (unchanged jedi, 'may-be binding hides the enclosing scope'): when the value came from the ENCLOSING scope
+    because a binding of the host scope that precedes the use in the text did not run, and jedi's flow analysis cannot
+    rule that binding out (status UNSURE: a branch of an earlier/enclosing if statement with a condition it cannot
+    evaluate, any clause of a try statement, a while body), goto returns only that binding and not the enclosing
+    scope's.  Reproducer: 'x = 1\\nclass K:\\n    if unknown:\\n        x = 2\\n    y = x\\n' with unknown false: goto on the
+    last x -> line 4 only.  Kept: bindings that ran; bindings after the use; bindings in a sibling branch of an if
+    chain around the use; use in the else clause and binding in an except clause of one try statement; if chains whose
+    conditions are the literals 0 / 1 (decided statically).
+
+    FINDING (unchanged jedi, 'else clause that ends a try statement'): use in the else clause, binding in an except
+    clause, and the else clause is the LAST clause (no finally): goto returns the except clause's binding although
+    the two clauses exclude each other (with a finally clause it returns the enclosing scope's binding).  Reproducer:
+    'x = 1\\nclass K:\\n    try:\\n        pass\\n    except E:\\n        x = 2\\n    else:\\n        y = x\\n'.
+    Relation 'else-except-last' is left out for that reason."""
+    def skip(value, use, const_pos):
+        if value in host_values:
+            return False            # the binding ran (or x was bound in the host scope before the statement)
+        if const_pos[bval].lineno > use.lineno:
+            return False
+        if relation in ('sibling-if', 'else-except') or (static and pure_if):
+            return False
+        excluded[relation] += 1
+        return True
+    return skip
+
+
 def run(repo, seed, tier):
     import jedi
     violations = []
     evaluations = 0
     generated = generated_programs(tier)
     for code in PROGRAMS + generated:
-        straight = code.startswith('#S')
-        tree, parents, scope_of, effective_scope = analyse(code)
-        seen = []
-        ns = {'observe': lambda site, v: seen.append((site, v))}
-        try:
-            exec(compile(code, '<prog>', 'exec'), ns)
-        except NameError:
-            pass        # a use Python itself cannot resolve: the uses executed before it still count
-        except Exception:
-            violations.append({'label': 'generated program does not run', 'input': repr(code), 'observed': traceback.format_exc(limit=2)})
-            continue
-        # value -> binding node (an int constant on the binding line identifies it)
-        const_pos = {}
-        for n in ast.walk(tree):
-            if isinstance(n, ast.Constant) and isinstance(n.value, int) and n.value > 100:
-                const_pos[n.value] = n
-        # global/nonlocal declaration lines per identifier
-        decl_lines = {}
-        for n in ast.walk(tree):
-            if isinstance(n, (ast.Global, ast.Nonlocal)):
-                for nm in n.names:
-                    decl_lines.setdefault(nm, set()).add(n.lineno)
-        # uses: observe(site, name)
-        uses = {}
-        for n in ast.walk(tree):
-            if isinstance(n, ast.Call) and isinstance(n.func, ast.Name) and n.func.id == 'observe':
-                uses[n.args[0].value] = n.args[1]
-        s = jedi.Script(code)
-        for site, value in seen:
-            use = uses[site]
-            if value not in const_pos:
-                continue
-            if use.id == 'p':
-                # observed through a parameter whose default is a bare name: the use is that default expression,
-                # evaluated when the def statement ran
-                fn = scope_of(use)
-                if isinstance(fn, ast.FunctionDef) and fn.args.defaults and isinstance(fn.args.defaults[0], ast.Name):
-                    use = fn.args.defaults[0]
-                else:
-                    continue
-            bind_const = const_pos[value]
-            bscope = scope_of(bind_const)
-            evaluations += 1
-            try:
-                defs = s.goto(use.lineno, use.col_offset)
-            except RecursionError:
-                continue
-            except Exception:
-                violations.append({'label': 'goto raised', 'input': repr((code, site)), 'observed': traceback.format_exc(limit=3)})
-                continue
-            if not defs:
-                violations.append({'label': 'goto finds no definition for an executed use', 'input': repr((code, site)),
-                                   'observed': 'value %r came from line %d' % (value, bind_const.lineno)})
-                continue
-            for d in defs:
-                if d.name != use.id:
-                    violations.append({'label': 'goto lands on a different identifier', 'input': repr((code, site)),
-                                       'observed': repr((d.name, d.line, d.column))})
-                    continue
-                if d.line in decl_lines.get(use.id, ()):
-                    continue
-                # scope of the returned definition
-                dnode = None
-                for n in ast.walk(tree):
-                    if isinstance(n, (ast.Name, ast.arg)) and n.lineno == d.line and n.col_offset == d.column:
-                        dnode = n
-                if dnode is None:
-                    continue
-                dscope = effective_scope(dnode) if isinstance(dnode, ast.Name) else scope_of(dnode)
-                # a parameter belongs to the function whose header holds it
-                if isinstance(dnode, ast.arg):
-                    dscope = parents[parents[dnode]] if isinstance(parents[dnode], ast.arguments) else dscope
-                # the binding `for x in (802,)` / call argument: the constant sits in the enclosing scope of the
-                # binder; compare with the scope that holds the binding NAME instead
-                bname_scope = None
-                for n in ast.walk(tree):
-                    if isinstance(n, ast.Name) and isinstance(n.ctx, ast.Store) and n.id == use.id and n.lineno == bind_const.lineno:
-                        bname_scope = effective_scope(n)
-                if bname_scope is None:
-                    # value passed as argument: the binding is the parameter of the called function
-                    continue
-                if dscope is not bname_scope:
-                    violations.append({'label': 'goto returns a binding from a scope Python did not take the value from',
-                                       'input': repr((code, site)),
-                                       'observed': 'definition at line %d, value came from line %d' % (d.line, bind_const.lineno)})
-            if straight:
-                lines = sorted({d.line for d in defs})
-                if lines != [bind_const.lineno]:
-                    violations.append({'label': 'straight-line code: goto is not exactly the observed assignment',
-                                       'input': repr((code, site)), 'observed': 'got lines %r want %d' % (lines, bind_const.lineno)})
+        evaluations += _check_program(jedi, code, {}, None, violations)
+    flows = flow_programs(tier, seed)
+    excluded = collections.Counter()
+    flow_evaluations = collections.Counter()
+    for code, assign, bval, host_values, relation, static, pure_if in flows:
+        n = _check_program(jedi, code, _flow_namespace(assign),
+                           _flow_skip(bval, host_values, relation, static, pure_if, excluded), violations)
+        flow_evaluations[relation] += n
+        evaluations += n
     seen_l = {}
     for v in violations:
         seen_l.setdefault(v['label'], []).append(v)
@@ -223,7 +621,13 @@ def run(repo, seed, tier):
             'rule': '%d hand-written executable programs (module/function/closure/class body/comprehension/lambda nesting; '
                     'rebinding, global, nonlocal, parameters and defaults, for targets) + %d generated nestings (depth 1-3 '
                     'over {def, class}, x bound or not at every level, innermost use plain / in a lambda / in a '
-                    'comprehension / as bare-name parameter default) with unique values per binding; every executed use'
-                    % (len(PROGRAMS), len(generated)),
-            'samples': PROGRAMS[:2], 'violations': violations[:300],
+                    'comprehension / as bare-name parameter default) + %d control-flow programs (binding and use in every '
+                    'pair of places of if chains with 2-5 branches, try statements with 1-2 handlers / else / finally, '
+                    'for / while / with, and their nestings; host class body, class in class, class in function, '
+                    'function; branch selected at run time by injected selectors or by literal 0/1 conditions; '
+                    'evaluations per relation %s; left out (known findings) %s) with unique values per binding; '
+                    'every executed use'
+                    % (len(PROGRAMS), len(generated), len(flows), sorted(flow_evaluations.items()),
+                       sorted(excluded.items())),
+            'samples': PROGRAMS[:2] + [flows[0][0]], 'violations': violations[:300],
             'violation_counts': {k: len(v) for k, v in seen_l.items()}}
